@@ -12,6 +12,9 @@ ALL_KINDS = [
     "withopts", "cached", "dataset", "derive",
 ]
 
+# kinds a property has to opt in to (swarm_cfg(on=...)): every model that walks specs must know them
+OPT_IN_KINDS = ["dsclass"]
+
 ALL_FEATURES = [
     "tmpl",  # templated scalar values in dictionaries
     "tmpl_in_container",  # templated strings inside lists / whole sections
@@ -44,7 +47,10 @@ def swarm_cfg(rng, *, base=None, off=(), on=(), p_feature=0.6, p_kind=0.75):
         else:
             cfg[f] = False
     for f in on:
-        if f in ALL_KINDS:
+        if f in OPT_IN_KINDS:
+            if rng.random() < p_kind:
+                cfg["kinds"].append(f)
+        elif f in ALL_KINDS:
             if f not in cfg["kinds"]:
                 cfg["kinds"].append(f)
         else:
@@ -314,6 +320,16 @@ class SpecGen:
     def g_tuple(self):
         return self.add({"k": "tuple", "items": [self.pick_any() for _ in range(self.rng.randint(1, 3))]})
 
+    def g_dsclass(self):
+        """A @datasetclass: annotated members, un-annotated class attributes and members inherited from a plain mixin."""
+        r = self.rng
+        names = r.sample(["fa", "fb", "fc", "fd"], r.randint(1, 3))
+        node = {"k": "dsclass", "name": f"DC{len(self.nodes)}", "fields": [], "plain": [], "mixin": []}
+        for nm in names:
+            where = r.choices(["fields", "plain", "mixin"], [5, 2, 2])[0]
+            node[where].append([nm, self.pick_any()])
+        return self.add(node)
+
     def g_dict(self):
         r = self.rng
         keys = r.sample(["k1", "k2", "k3"], r.randint(1, 2))
@@ -401,7 +417,8 @@ class SpecGen:
         seen.add(nid)
         n = next(x for x in self.nodes if x["id"] == nid)
         k = n["k"]
-        if k in ("alloptions", "dict"):
+        if k in ("alloptions", "dict", "dsclass"):
+            # (a datasetclass instance prints as Name({...}): braces again)
             return False
         if k == "val":
             return not isinstance(n["v"], dict)
@@ -576,6 +593,8 @@ def children(n):
         out.extend(n["items"])
     elif k == "dict":
         out.extend(v for _, v in n["items"])
+    elif k == "dsclass":
+        out.extend(v for part in ("fields", "plain", "mixin") for _, v in n[part])
     elif k == "map":
         out.append(n["target"])
         out.extend(n["iterables"].values())
